@@ -209,7 +209,8 @@ def gen(t, tier):
         k = t.weighted([('get', 5), ('cond', 8), ('adv', 3), ('rewrite', (6 if linked else 2) if sc['refresh'] else 0),
                         ('up500', 1 if linked else 2), ('up404', 2 if sc.get('err404') else 0), ('cond_refresh', 2 if sc['refresh'] else 0),
                         ('ocean', 5 if linked else (2 if sc['ocean'] else 0)),
-                        ('purge', 0 if sc.get('cascade') else (4 if linked else 1))])
+                        ('purge', 0 if sc.get('cascade') else (4 if linked else 1)),
+                        ('diskfail', 1 if backend == 'file' and not sc.get('cascade') else 0)])
         u = t.choice(len(coords))
         if k == 'get':
             sc['ops'].append(['get', u])
@@ -230,6 +231,9 @@ def gen(t, tier):
             sc['ops'].append(['ocean', t.choice(2)])
         elif k == 'purge':
             sc['ops'].append(['purge', u])
+        elif k == 'diskfail':
+            sc['ops'].append(['purge', u])
+            sc['ops'].append(['diskfail', u])
         elif k == 'up404':
             sc['ops'].append(['up404', bool(t.choice(2))])
         else:
@@ -381,6 +385,18 @@ def _run(sc, tape):
         """number of successful upstream fetches that covered this URL's tile so far = how often it was (re)written"""
         return sum(1 for e in http.log if e['ok'] and e.get('bbox') and U.covers(e['bbox'], coords[u]))
 
+    disk = {'armed': False, 'fired': False}
+
+    def disk_hook(op_, key, proc):
+        if disk['armed'] and op_ in ('write', 'rename') and '/cache/' in str(key) and '.lck' not in str(key):
+            disk['fired'] = True
+            import errno as _errno
+            e = OSError(_errno.ENOSPC, os.strerror(_errno.ENOSPC), str(key))
+            e.injected = True
+            raise e
+        return None
+    if sc['backend'].startswith('file'):
+        w.fs.fault_hook = disk_hook
     purges = []          # (length of the upstream log at that moment, url index)
     outer_seen = set()   # cascade: addresses whose first tile response has been seen
     created_now = [False]
@@ -527,6 +543,32 @@ def _run(sc, tape):
                     purges.append((len(http.log), op[1]))
                     if hasattr(tm.cache, 'cleanup'):
                         tm.cache.cleanup()
+                elif k == 'diskfail':
+                    # the disk is full while the tile of this request is to be stored (twice in a row): whatever is answered,
+                    # a validator handed out for a tile that is not in the cache must never be confirmed with 304
+                    from mapproxy.cache.tile import Tile
+                    u = op[1]
+                    tm = [tmx for _, _, tmx in pc.caches['c1'].caches()][0]
+                    path_ = tm.cache.tile_location(Tile(coords[u]))
+                    disk['armed'] = True
+                    try:
+                        st, hd, body, calls = get(u)
+                    finally:
+                        fired = disk['fired']
+                        disk.update({'armed': False, 'fired': False})
+                    if fired:
+                        probes['disk_full_while_storing'] = probes.get('disk_full_while_storing', 0) + 1
+                    if fired and st == 200 and hd.get('etag') and not w.fs.exists(path_):
+                        disk['armed'] = True
+                        try:
+                            st2, hd2, body2, calls2 = get(u, {'If-None-Match': hd['etag']})
+                        finally:
+                            disk.update({'armed': False, 'fired': False})
+                        if st2 == 304:
+                            raise Bad('304-for-unstored-tile', '%s: storing the tile failed (disk full), the response was 200 with ETag %r, '
+                                      'nothing is in the cache - and a request carrying that ETag is answered 304' % (what, hd['etag']))
+                    # what the failed requests left behind is judged by the following operations
+                    last.pop(u, None)
                 elif k == 'get':
                     st, hd, body, calls = get(op[1])
                     observe(op[1], st, hd, body, calls, what)
